@@ -210,6 +210,7 @@ func init() {
 		ruleShapeFaults(shapeConfig{label: "resample", keep: inPkgs("resample."), floor: 2, override: resampleParams, post: rulePost("resample", resamplePost)}),
 		ruleMemberLoops(inPkgs("resample."), 1, 2),
 		ruleLastIterationWins(inPkgs("resample."), 3),
+		ruleCompose(resampleSpecs, 8),
 	)
 
 	register("C20",
